@@ -9,6 +9,7 @@ mod engine;
 mod props;
 mod refcodec;
 mod w2;
+mod w3;
 mod w4;
 
 use engine::Tier;
@@ -31,6 +32,7 @@ fn main() {
             "C17" => props::c17::replay(&v),
             "C03" | "C04" | "C07" | "C08" | "C14" => props::w4props::replay(&v),
             "C05" | "C11" => props::w2props::replay(&v),
+            "C01" | "C02" | "C06" | "C13" => props::w3props::replay(&v),
             _ => eprintln!("no replay for {prop}"),
         }
         return;
@@ -61,6 +63,8 @@ fn main() {
         "C14" => props::w4props::run_c14(tier),
         "C05" => props::w2props::run_c05(tier),
         "C11" => props::w2props::run_c11(tier),
+        "C01" => props::w3props::run_ring(props::w3props::Which::C01, tier),
+        "C02" => props::w3props::run_ring(props::w3props::Which::C02, tier),
         _ => {
             eprintln!("unknown property {prop}");
             std::process::exit(2)
